@@ -345,6 +345,8 @@ def _len(eng, a, kw, st, fr, k, node):
         return k(v.n, st)
     if isinstance(v, (list, tuple, dict, str)):
         return k(z3.IntVal(len(v)), st)
+    if type(v).__name__ == "ItemList":
+        return k(v.cell["n"], st)
     if isinstance(v, Ref) and v.kind == "list":
         return k(st.heap[v.base]["n"], st)
     if isinstance(v, Ref) and v.kind == "msgheap":
@@ -496,6 +498,12 @@ def _dict(eng, a, kw, st, fr, k, node):
 def _list(eng, a, kw, st, fr, k, node):
     if not a:
         return k([], st)
+    if isinstance(a[0], Ref) and a[0].kind in ("dict_keys", "dict_values", "dict_items"):
+        from . import dicts
+        cell = st.heap[a[0].base]
+        for f in dicts.wf(cell):
+            st = st.assume(f)
+        return k(dicts.ItemList(cell, a[0].kind.split("_")[1]), st)
     if isinstance(a[0], (list, tuple)):
         return k(list(a[0]), st)
     if isinstance(a[0], Opq):
@@ -620,6 +628,21 @@ def _list_append(eng, recv, a, kw, st, fr, k, node):
     return k(PNONE, s2)
 
 
+def _dict_m(name):
+    def m(eng, recv, a, kw, st, fr, k, node):
+        from . import dicts
+        if "keys" not in st.heap[recv.base]:
+            raise Unsupported("method on an untracked dict")
+        if name == "pop":
+            return dicts.pop(eng, recv, a, kw, st, fr, k, node)
+        return dicts.view_method(name)(eng, recv, a, kw, st, fr, k, node)
+    return m
+
+
+for _n in ("items", "keys", "values", "pop"):
+    METHODS[("dict", _n)] = _dict_m(_n)
+
+
 @method("pydict", "items")
 def _pydict_items(eng, recv, a, kw, st, fr, k, node):
     return k([(key, v) for key, v in recv.items()], st)
@@ -655,6 +678,25 @@ def with_stmt(eng, s, st, fr, k):
     if eng.cur is not None and eng.cur.with_handler is not None:
         return eng.cur.with_handler(eng, s, st, fr, k)
     raise Unsupported("with statement")
+
+
+def plain_with(eng, s, st, fr, k):
+    """``with <expr> as name:`` for resources (files): the managed object is an opaque value, entering and leaving
+    have no effect on tracked state and never swallow an exception."""
+    eng.assumptions.add(f"with-statement at line {s.lineno} of {eng.cur.key}: opaque resource, __exit__ does not swallow exceptions")
+
+    def go(i, s1):
+        if i == len(s.items):
+            return eng.ex(s.body, s1, fr, k)
+        it = s.items[i]
+
+        def got(v, s2):
+            if it.optional_vars is None:
+                return go(i + 1, s2)
+            res = Opq(eng.fresh("resource", "V"))
+            return eng.assign(it.optional_vars, res, s2, fr, lambda s3: go(i + 1, s3), s)
+        return eng.ev(it.context_expr, s1, fr, got)
+    return go(0, st)
 
 
 @lib("strax.endtime", "endtime")
